@@ -55,6 +55,15 @@ Proof.
   pose proof (Hf x (or_introl eq_refl)). assert (sumZ f r <= sumZ g r) by (apply IH; intros; apply Hf; now right). lia.
 Qed.
 
+Lemma sum_le_at (f g : thr -> Z) l t : (forall u, f u <= g u) -> In t l ->
+  sumZ f l + (g t - f t) <= sumZ g l.
+Proof.
+  intros Hf. induction l as [|x r IH]; intros Hin; [destruct Hin|]. cbn [sumZ].
+  destruct Hin as [->|Hin].
+  - pose proof (sum_le f g r (fun u _ => Hf u)). lia.
+  - pose proof (IH Hin). pose proof (Hf x). lia.
+Qed.
+
 Lemma sum_add (f g : thr -> Z) l : sumZ (fun u => f u + g u) l = sumZ f l + sumZ g l.
 Proof. induction l as [|x r IH]; cbn [sumZ]; lia. Qed.
 
@@ -250,6 +259,9 @@ Definition f2w (x : nat) (o : option local) : Z :=
 (** flusher between the addition and its own Release *)
 Definition f3w (x : nat) (o : option local) : Z :=
   match o with Some (LFlush3 s) => b2z (Nat.eqb s x) | _ => 0 end.
+(** accessor that incremented the closed session x and has not yet backed off (no token) *)
+Definition bw (x : nat) (o : option local) : Z :=
+  match o with Some (LAcqBack s) => b2z (Nat.eqb s x) | _ => 0 end.
 (** the counter of x was brought to [offset] by this thread, latch not yet attempted *)
 Definition zw (x : nat) (o : option local) : Z :=
   match o with Some (LRelZero s _) => b2z (Nat.eqb s x) | _ => 0 end.
@@ -281,19 +293,22 @@ Lemma kw_nonneg k : 0 <= kw k. Proof. destruct k; cbn; lia. Qed.
 Lemma hw_nonneg x t : 0 <= hw x t. Proof. unfold hw. lia. Qed.
 Lemma f2w_nonneg x o : 0 <= f2w x o. Proof. destruct o as [[]|]; cbn; try lia; apply b2z_nonneg. Qed.
 Lemma f3w_nonneg x o : 0 <= f3w x o. Proof. destruct o as [[]|]; cbn; try lia; apply b2z_nonneg. Qed.
+Lemma bw_nonneg x o : 0 <= bw x o. Proof. destruct o as [[]|]; cbn; try lia; apply b2z_nonneg. Qed.
 Lemma zw_nonneg x o : 0 <= zw x o. Proof. destruct o as [[]|]; cbn; try lia; apply b2z_nonneg. Qed.
 Lemma law_nonneg x o : 0 <= law x o. Proof. destruct o as [[]|]; cbn; try lia; apply b2z_nonneg. Qed.
 Lemma gcw_nonneg o : 0 <= gcw o. Proof. destruct o as [[]|]; cbn; lia. Qed.
 Lemma qw_nonneg o : 0 <= qw o. Proof. destruct o as [[]|]; cbn; lia. Qed.
 Lemma mw_nonneg o : 0 <= mw o. Proof. destruct o as [[]|]; cbn; try lia; apply kw_nonneg. Qed.
 Lemma curw_nonneg o : 0 <= curw o. Proof. destruct o; cbn; lia. Qed.
+Lemma bw_le_curw x o : bw x o <= curw o.
+Proof. destruct o as [[]|]; cbn; try lia. destruct (Nat.eqb _ _); cbn; lia. Qed.
 Lemma f23_le_mw x o : f2w x o + f3w x o <= mw o.
 Proof. destruct o as [[]|]; cbn; try lia; try apply kw_nonneg; destruct (Nat.eqb _ _); cbn; lia. Qed.
 
 (** what the control state of a thread promises about the shared state *)
 Definition locok (s : shared) (o : option local) : Prop :=
   match o with
-  | Some (LAcq x) => (x <= activeSeqno s)%nat
+  | Some (LAcq x) | Some (LAcqBack x) => (x <= activeSeqno s)%nat
   | Some (LFlush1 x _) => x = activeSeqno s
   | Some (LFlush2 x) | Some (LFlush3 x) => (x < activeSeqno s)%nat
   | Some (LClean c _) => In c (freeq s)
@@ -317,15 +332,17 @@ Record Inv (N : Z) (y : sysU) : Prop := {
   i_w : sumZ ww (ths y) <= N;
   (* counter accounting *)
   i_live : forall x, live (get (sh y) x)
-     = sumZ (hw x) (ths y) + (if (x <? activeSeqno (sh y))%nat then offset else 0)
+     = sumZ (hw x) (ths y) + sumZ (fun t => bw x (cur t)) (ths y)
+       + (if (x <? activeSeqno (sh y))%nat then offset else 0)
        - offset * sumZ (fun t => f2w x (cur t)) (ths y) + sumZ (fun t => f3w x (cur t)) (ths y);
   i_loc : forall t, In t (ths y) -> locok (sh y) (cur t);
   i_mx : sumZ (fun t => mw (cur t)) (ths y) = mz (mutex (sh y));
-  (* the counter stands at [offset] exactly when the session is closed or about to be *)
+  (* the counter stands at [offset] (plus the accessors that are backing off) exactly when the session
+     is closed or about to be *)
   i_cl1 : forall x, live (get (sh y) x) = offset ->
      1 <= Z.of_nat (closed (get (sh y) x)) + sumZ (fun t => zw x (cur t)) (ths y);
   i_cl2 : forall x, 1 <= Z.of_nat (closed (get (sh y) x)) + sumZ (fun t => zw x (cur t)) (ths y) ->
-     live (get (sh y) x) = offset;
+     live (get (sh y) x) = offset + sumZ (fun t => bw x (cur t)) (ths y);
   (* a latched session is with its latcher, in the queue, or destructed *)
   i_latch : forall x, (if Nat.eqb (closed (get (sh y) x)) 0 then 0 else 1)
      = sumZ (fun t => law x (cur t)) (ths y) + Z.of_nat (count_occ Nat.eq_dec (freeq (sh y)) x)
@@ -360,6 +377,8 @@ Lemma Z_nonneg x : 0 <= sumZ (fun t : thr => zw x (cur t)) (ths y).
 Proof. apply sum_nonneg. intros; apply zw_nonneg. Qed.
 Lemma LA_nonneg x : 0 <= sumZ (fun t : thr => law x (cur t)) (ths y).
 Proof. apply sum_nonneg. intros; apply law_nonneg. Qed.
+Lemma B_nonneg x : 0 <= sumZ (fun t : thr => bw x (cur t)) (ths y).
+Proof. apply sum_nonneg. intros; apply bw_nonneg. Qed.
 Lemma HW_nonneg x : 0 <= sumZ (hw x) (ths y).
 Proof. apply sum_nonneg. intros; apply hw_nonneg. Qed.
 
@@ -391,23 +410,42 @@ Qed.
 Lemma curw_sum_nonneg : 0 <= sumZ (fun t : thr => curw (cur t)) (ths y).
 Proof. apply sum_nonneg. intros; apply curw_nonneg. Qed.
 
-Lemma hold_lt x : sumZ (hw x) (ths y) < offset.
-Proof. pose proof (hold_bound x). pose proof curw_sum_nonneg. lia. Qed.
+Lemma B_le_curw x : sumZ (fun t : thr => bw x (cur t)) (ths y) <= sumZ (fun t : thr => curw (cur t)) (ths y).
+Proof. apply sum_le. intros u _. apply bw_le_curw. Qed.
 
-(** a counter at [offset]: the session is flushed completely and nobody holds a token *)
-Lemma live_off x : live (get (sh y) x) = offset ->
+(** tokens and in-flight back-offs of one session *)
+Lemma hold_lt x : sumZ (hw x) (ths y) + sumZ (fun t : thr => bw x (cur t)) (ths y) < offset.
+Proof. pose proof (hold_bound x). pose proof (B_le_curw x). lia. Qed.
+
+(** a counter at [offset] up to the accessors that are backing off: the session is flushed completely
+    and nobody holds a token *)
+Lemma live_off x : live (get (sh y) x) = offset + sumZ (fun t : thr => bw x (cur t)) (ths y) ->
   (x < activeSeqno (sh y))%nat /\ sumZ (hw x) (ths y) = 0 /\
   sumZ (fun t : thr => f2w x (cur t)) (ths y) = 0 /\ sumZ (fun t : thr => f3w x (cur t)) (ths y) = 0.
 Proof.
   intros E. rewrite (i_live _ _ H x) in E.
-  pose proof (hold_lt x). pose proof (HW_nonneg x). pose proof (F2_nonneg x). pose proof (F3_nonneg x).
-  pose proof (F23_le1 x).
+  pose proof (hold_lt x). pose proof (HW_nonneg x). pose proof (B_nonneg x).
+  pose proof (F2_nonneg x). pose proof (F3_nonneg x). pose proof (F23_le1 x).
   destruct (Nat.ltb_spec x (activeSeqno (sh y))) as [L|L].
   - split; [exact L|]. unfold offset in *. lia.
   - destruct (F23_zero x L) as [A B]. rewrite A, B in E. unfold offset in *. lia.
 Qed.
 
-Lemma closed_off x : closed (get (sh y) x) <> 0%nat -> live (get (sh y) x) = offset.
+(** one above [offset]: exactly one token holder, back-off or flusher is left *)
+Lemma live_off1 x : live (get (sh y) x) = offset + 1 ->
+  sumZ (hw x) (ths y) + sumZ (fun t : thr => bw x (cur t)) (ths y)
+  + sumZ (fun t : thr => f3w x (cur t)) (ths y) = 1.
+Proof.
+  intros E. rewrite (i_live _ _ H x) in E.
+  pose proof (hold_lt x). pose proof (HW_nonneg x). pose proof (B_nonneg x).
+  pose proof (F2_nonneg x). pose proof (F3_nonneg x). pose proof (F23_le1 x).
+  destruct (Nat.ltb_spec x (activeSeqno (sh y))) as [L|L].
+  - unfold offset in *. lia.
+  - destruct (F23_zero x L) as [A B]. rewrite A, B in E. unfold offset in *. lia.
+Qed.
+
+Lemma closed_off x : closed (get (sh y) x) <> 0%nat ->
+  live (get (sh y) x) = offset + sumZ (fun t : thr => bw x (cur t)) (ths y).
 Proof. intros C. apply (i_cl2 _ _ H). pose proof (Z_nonneg x). lia. Qed.
 
 Lemma closed_flushed x : closed (get (sh y) x) <> 0%nat -> (x < activeSeqno (sh y))%nat.
@@ -453,15 +491,17 @@ Qed.
 
 (** a held token keeps the counter away from [offset] and the session in range *)
 Lemma held_live x : 1 <= sumZ (hw x) (ths y) ->
-  live (get (sh y) x) <> offset /\ 1 <= live (get (sh y) x) /\ (x <= activeSeqno (sh y))%nat.
+  live (get (sh y) x) <> offset + sumZ (fun t : thr => bw x (cur t)) (ths y) /\
+  live (get (sh y) x) <> offset /\
+  1 <= live (get (sh y) x) /\ (x <= activeSeqno (sh y))%nat.
 Proof.
   intros Hh. split; [intros E; apply live_off in E; lia|].
   pose proof (i_live _ _ H x) as E. pose proof (hold_lt x). pose proof (F2_nonneg x). pose proof (F3_nonneg x).
-  pose proof (F23_le1 x).
+  pose proof (F23_le1 x). pose proof (B_nonneg x).
   destruct (Nat.ltb_spec x (activeSeqno (sh y))) as [L|L].
   - unfold offset in *. lia.
   - destruct (F23_zero x L) as [A B]. rewrite A, B in E.
-    split; [lia|].
+    split; [lia|]. split; [lia|].
     destruct (le_lt_dec x (activeSeqno (sh y))) as [|G]; [assumption|exfalso].
     rewrite get_getl, getl_out in E by (rewrite (i_len _ _ H); lia). cbn [live] in E. lia.
 Qed.
@@ -488,6 +528,7 @@ Ltac sums := rewrite ?(sum_upd _ i t t' l Et); cbn beta.
 Lemma Inv_ctl b m :
   pers_of t' = pers_of t -> ww t' <= ww t ->
   (forall x, f2w x (cur t') = f2w x (cur t)) -> (forall x, f3w x (cur t') = f3w x (cur t)) ->
+  (forall x, bw x (cur t') = bw x (cur t)) ->
   (forall x, zw x (cur t') = zw x (cur t)) -> (forall x, law x (cur t') = law x (cur t)) ->
   gcw (cur t') - gcw (cur t) = b2z b - b2z (running s) ->
   mw (cur t') - mw (cur t) = mz m - mz (mutex s) ->
@@ -497,15 +538,15 @@ Lemma Inv_ctl b m :
   Inv N (mkSys (mkSh (sessions s) (cur_sess s) (activeSeqno s) (freeSeqno s) (freeq s) b m
                      (destructed s) (panicked s)) (upd_th i t' l)).
 Proof.
-  intros Hp Hw H2 H3 Hz Hla Hg Hm Hl Hr.
+  intros Hp Hw H2 H3 Hb Hz Hla Hg Hm Hl Hr.
   destruct HI as [h1 h2 h3 h4 h5 h6 h7 h8 h9 h10 h11 h12 h13 h14 h15 h16 h17]. psimp.
   constructor; psimp; unfold get in *; psimp; auto.
   - sums. lia.
-  - intros x. sums. rewrite (h7 x), H2, H3. unfold hw. rewrite Hp. lia.
+  - intros x. sums. rewrite (h7 x), H2, H3, Hb. unfold hw. rewrite Hp. lia.
   - intros u Hu. inu Hu; [exact Hl|]. apply h8. eapply others_In; eauto.
   - sums. lia.
   - intros x. sums. rewrite Hz. intros E. specialize (h10 x E). lia.
-  - intros x. sums. rewrite Hz. intros E. apply h11. lia.
+  - intros x. sums. rewrite Hz, Hb. intros E. rewrite (h11 x); lia.
   - intros x. sums. rewrite Hla, (h12 x). lia.
   - sums. lia.
   - intros R. sums. apply Hr; auto.
@@ -517,12 +558,18 @@ Lemma Inv_live s0 v m :
   (forall x, x <> s0 -> hw x t' = hw x t) ->
   (forall x, x <> s0 -> f2w x (cur t') = f2w x (cur t)) ->
   (forall x, x <> s0 -> f3w x (cur t') = f3w x (cur t)) ->
-  v = live (get s s0) + (hw s0 t' - hw s0 t) - offset * (f2w s0 (cur t') - f2w s0 (cur t))
-      + (f3w s0 (cur t') - f3w s0 (cur t)) ->
+  (forall x, x <> s0 -> bw x (cur t') = bw x (cur t)) ->
+  v = live (get s s0) + (hw s0 t' - hw s0 t) + (bw s0 (cur t') - bw s0 (cur t))
+      - offset * (f2w s0 (cur t') - f2w s0 (cur t)) + (f3w s0 (cur t') - f3w s0 (cur t)) ->
   (forall x, x <> s0 -> zw x (cur t') = zw x (cur t)) ->
   zw s0 (cur t) = 0 ->
-  (v = offset -> zw s0 (cur t') = 1) ->
-  (v <> offset -> live (get s s0) <> offset /\ zw s0 (cur t') = 0) ->
+  (* the counter reaches [offset]: this thread is responsible, and no back-off is in flight *)
+  (v = offset -> zw s0 (cur t') = 1 /\
+     sumZ (fun u : thr => bw s0 (cur u)) l - bw s0 (cur t) + bw s0 (cur t') = 0) ->
+  (* otherwise: on a closed (or about to be closed) session only back-offs come and go *)
+  (v <> offset -> zw s0 (cur t') = 0 /\
+     (live (get s s0) = offset + sumZ (fun u : thr => bw s0 (cur u)) l ->
+      v - live (get s s0) = bw s0 (cur t') - bw s0 (cur t))) ->
   (forall x, law x (cur t') = law x (cur t)) ->
   gcw (cur t') = gcw (cur t) -> qw (cur t') = qw (cur t) ->
   mw (cur t') - mw (cur t) = mz m - mz (mutex s) ->
@@ -531,7 +578,7 @@ Lemma Inv_live s0 v m :
                      (cur_sess s) (activeSeqno s) (freeSeqno s) (freeq s) (running s) m
                      (destructed s) (panicked s)) (upd_th i t' l)).
 Proof.
-  intros Hs0 Hh H2 H3 Hv Hz Hz0 Hc1 Hc2 Hla Hg Hq Hm Hw Hl.
+  intros Hs0 Hh H2 H3 Hb Hv Hz Hz0 Hc1 Hc2 Hla Hg Hq Hm Hw Hl.
   pose proof (Z_nonneg (mkSys s l) s0) as Zn.
   destruct HI as [h1 h2 h3 h4 h5 h6 h7 h8 h9 h10 h11 h12 h13 h14 h15 h16 h17]. psimp.
   assert (Hr : (s0 < length (sessions s))%nat) by lia.
@@ -542,18 +589,21 @@ Proof.
   - intros x. sums. rewrite getl_set by assumption.
     destruct (Nat.eqb_spec x s0) as [->|Ne]; cbn [live].
     + rewrite Hv, (h7 s0). lia.
-    + rewrite (h7 x), Hh, H2, H3 by assumption. lia.
+    + rewrite (h7 x), Hh, H2, H3, Hb by assumption. lia.
   - intros u Hu. inu Hu; [exact Hl|]. apply h8. eapply others_In; eauto.
   - sums. lia.
   - intros x. sums. rewrite getl_set by assumption.
     destruct (Nat.eqb_spec x s0) as [->|Ne]; cbn [live closed].
-    + intros E. rewrite (Hc1 E). lia.
+    + intros E. destruct (Hc1 E) as [A _]. rewrite A. lia.
     + rewrite (Hz x Ne). intros E. specialize (h10 x E). lia.
   - intros x. sums. rewrite getl_set by assumption.
     destruct (Nat.eqb_spec x s0) as [->|Ne]; cbn [live closed].
-    + intros E. destruct (Z.eq_dec v offset) as [|Nv]; [assumption|exfalso].
-      destruct (Hc2 Nv) as [A B]. apply A, h11. lia.
-    + rewrite (Hz x Ne). intros E. apply h11. lia.
+    + intros E. destruct (Z.eq_dec v offset) as [Ev|Nv].
+      * destruct (Hc1 Ev) as [_ A]. lia.
+      * destruct (Hc2 Nv) as [A B].
+        assert (Lo : live (getl (sessions s) s0) = offset + sumZ (fun u : thr => bw s0 (cur u)) l) by (apply h11; lia).
+        specialize (B Lo). lia.
+    + rewrite (Hz x Ne), (Hb x Ne). intros E. rewrite (h11 x); lia.
   - intros x. sums. rewrite getl_set by assumption. rewrite Hla.
     destruct (Nat.eqb_spec x s0) as [->|Ne]; cbn [closed]; rewrite (h12 _); lia.
   - sums. lia.
@@ -566,7 +616,8 @@ Qed.
 Lemma Inv_latch s0 k m :
   cur t = Some (LRelZero s0 k) ->
   pers_of t' = pers_of t -> ww t' <= ww t ->
-  (forall x, f2w x (cur t') = 0) -> (forall x, f3w x (cur t') = 0) -> (forall x, zw x (cur t') = 0) ->
+  (forall x, f2w x (cur t') = 0) -> (forall x, f3w x (cur t') = 0) -> (forall x, bw x (cur t') = 0) ->
+  (forall x, zw x (cur t') = 0) ->
   (forall x, law x (cur t') = if Nat.eqb x s0 && Nat.eqb (closed (get s s0)) 0 then 1 else 0) ->
   gcw (cur t') = 0 -> qw (cur t') = 0 ->
   mw (cur t') - kw k = mz m - mz (mutex s) ->
@@ -575,13 +626,13 @@ Lemma Inv_latch s0 k m :
                      (cur_sess s) (activeSeqno s) (freeSeqno s) (freeq s) (running s) m
                      (destructed s) (panicked s)) (upd_th i t' l)).
 Proof.
-  intros Ec Hp Hw H2 H3 Hz Hla Hg Hq Hm Hl.
+  intros Ec Hp Hw H2 H3 Hb Hz Hla Hg Hq Hm Hl.
   assert (Hh : forall x, hw x t' = hw x t) by (intros; unfold hw; now rewrite Hp).
   pose proof (Z_nonneg (mkSys s l) s0) as Zn.
   assert (Z1 : 1 <= sumZ (fun u : thr => zw s0 (cur u)) l).
   { pose proof (sum_ge (fun u : thr => zw s0 (cur u)) l t (fun u => zw_nonneg s0 (cur u)) Hin) as G.
     cbn beta in G. rewrite Ec in G. cbn [zw] in G. rewrite Nat.eqb_refl in G. exact G. }
-  assert (Lo : live (get s s0) = offset) by (apply (i_cl2 _ _ HI); psimp; lia).
+  assert (Lo : live (get s s0) = offset + sumZ (fun u : thr => bw s0 (cur u)) l) by (apply (i_cl2 _ _ HI); psimp; lia).
   destruct (live_off N HN _ HI s0 Lo) as (Hs0 & _). psimp.
   destruct HI as [h1 h2 h3 h4 h5 h6 h7 h8 h9 h10 h11 h12 h13 h14 h15 h16 h17]. psimp.
   assert (Hr : (s0 < length (sessions s))%nat) by lia.
@@ -589,17 +640,17 @@ Proof.
   - now rewrite length_set_nth.
   - intros x. rewrite seqno_set. apply h4.
   - sums. lia.
-  - intros x. sums. rewrite getl_set by assumption. rewrite H2, H3, Ec, Hh. cbn [f2w f3w]. destruct (Nat.eqb_spec x s0) as [->|Ne]; cbn [live]; rewrite (h7 _); lia.
+  - intros x. sums. rewrite getl_set by assumption. rewrite H2, H3, Hb, Ec, Hh. cbn [f2w f3w bw]. destruct (Nat.eqb_spec x s0) as [->|Ne]; cbn [live]; rewrite (h7 _); lia.
   - intros u Hu. inu Hu; [exact Hl|]. apply h8. eapply others_In; eauto.
   - sums. rewrite Ec. cbn [mw]. lia.
   - intros x. sums. rewrite getl_set by assumption. rewrite Hz, Ec. cbn [zw].
     destruct (Nat.eqb_spec x s0) as [->|Ne]; cbn [live closed].
     + rewrite Nat.eqb_refl. cbn [b2z]. intros E. specialize (h10 s0 E). lia.
     + destruct (Nat.eqb_spec s0 x); [congruence|]. cbn [b2z]. intros E. specialize (h10 x E). lia.
-  - intros x. sums. rewrite getl_set by assumption. rewrite Hz, Ec. cbn [zw].
+  - intros x. sums. rewrite getl_set by assumption. rewrite Hz, Hb, Ec. cbn [zw bw].
     destruct (Nat.eqb_spec x s0) as [->|Ne]; cbn [live closed].
-    + intros _. exact Lo.
-    + destruct (Nat.eqb_spec s0 x); [congruence|]. cbn [b2z]. intros E. apply h11. lia.
+    + intros _. rewrite Lo. lia.
+    + destruct (Nat.eqb_spec s0 x); [congruence|]. cbn [b2z]. intros E. rewrite (h11 x); lia.
   - intros x. sums. rewrite getl_set by assumption. rewrite Hla, Ec. cbn [law].
     destruct (Nat.eqb_spec x s0) as [->|Ne]; cbn [closed andb].
     + pose proof (h12 s0) as E. destruct (Nat.eqb_spec (closed (getl (sessions s) s0)) 0); cbn [Nat.eqb]; lia.
@@ -637,12 +688,12 @@ Proof.
   destruct HI as [h1 h2 h3 h4 h5 h6 h7 h8 h9 h10 h11 h12 h13 h14 h15 h16 h17]. psimp.
   constructor; psimp; unfold get in *; psimp; auto.
   - sums. lia.
-  - intros x. sums. rewrite Ec, Ec', Hh. cbn [f2w f3w]. rewrite (h7 x). lia.
+  - intros x. sums. rewrite Ec, Ec', Hh. cbn [f2w f3w bw]. rewrite (h7 x). lia.
   - intros u Hu. inu Hu; [rewrite Ec'; exact I|]. apply others_In in Hu. specialize (h8 u Hu).
     destruct (cur u) as [[]|]; cbn [locok] in *; psimp; auto. apply In_insert_q. now right.
   - sums. rewrite Ec, Ec'. cbn [mw]. lia.
   - intros x. sums. rewrite Ec, Ec'. cbn [zw]. intros E. specialize (h10 x E). lia.
-  - intros x. sums. rewrite Ec, Ec'. cbn [zw]. intros E. apply h11. lia.
+  - intros x. sums. rewrite Ec, Ec'. cbn [zw bw]. intros E. rewrite (h11 x); lia.
   - intros x. sums. rewrite Ec, Ec'. cbn [law]. rewrite count_insert_q, (h12 x).
     rewrite (Nat.eqb_sym x s0). destruct (Nat.eqb s0 x); cbn [b2z]; lia.
   - sums. rewrite Ec, Ec'. cbn [gcw]. lia.
@@ -654,14 +705,15 @@ Qed.
 Lemma Inv_destruct c k :
   cur t = Some (LClean c k) -> seqno (get s c) = S (freeSeqno s) ->
   pers_of t' = pers_of t -> ww t' <= ww t ->
-  (forall x, f2w x (cur t') = 0) -> (forall x, f3w x (cur t') = 0) -> (forall x, zw x (cur t') = 0) ->
+  (forall x, f2w x (cur t') = 0) -> (forall x, f3w x (cur t') = 0) -> (forall x, bw x (cur t') = 0) ->
+  (forall x, zw x (cur t') = 0) ->
   (forall x, law x (cur t') = 0) -> gcw (cur t') = 1 -> mw (cur t') = kw k ->
   (forall s', activeSeqno s' = activeSeqno s -> freeq s' = remove_nat c (freeq s) -> locok s' (cur t')) ->
   Inv N (mkSys (mkSh (sessions s) (cur_sess s) (activeSeqno s) (S (freeSeqno s)) (remove_nat c (freeq s))
                      (running s) (mutex s) (destructed s ++ [(seqno (get s c), oref (get s c))]) (panicked s))
                (upd_th i t' l)).
 Proof.
-  intros Ec Hsq Hp Hw H2 H3 Hz Hla Hg Hm Hl.
+  intros Ec Hsq Hp Hw H2 H3 Hb Hz Hla Hg Hm Hl.
   assert (Hh : forall x, hw x t' = hw x t) by (intros; unfold hw; now rewrite Hp).
   assert (Hcq : In c (freeq s)).
   { pose proof (i_loc _ _ HI t Hin) as L. psimp. rewrite Ec in L. exact L. }
@@ -672,7 +724,7 @@ Proof.
   constructor; psimp; unfold get in *; psimp; auto.
   - lia.
   - sums. lia.
-  - intros x. sums. rewrite Ec, H2, H3, Hh. cbn [f2w f3w]. rewrite (h7 x). lia.
+  - intros x. sums. rewrite Ec, H2, H3, Hb, Hh. cbn [f2w f3w bw]. rewrite (h7 x). lia.
   - intros u Hu. inu Hu; [apply Hl; reflexivity|].
     pose proof (others_sum (fun u : thr => gcw (cur u)) l i t u (fun u => gcw_nonneg (cur u)) Et Hu) as G.
     cbn beta in G. rewrite Ec in G. cbn [gcw] in G.
@@ -681,7 +733,7 @@ Proof.
     rewrite Hrun in Hgs. cbn [b2z] in Hgs. lia.
   - sums. rewrite Ec, Hm. cbn [mw]. lia.
   - intros x. sums. rewrite Ec, Hz. cbn [zw]. intros E. specialize (h10 x E). lia.
-  - intros x. sums. rewrite Ec, Hz. cbn [zw]. intros E. apply h11. lia.
+  - intros x. sums. rewrite Ec, Hz, Hb. cbn [zw bw]. intros E. rewrite (h11 x); lia.
   - intros x. sums. rewrite Ec, Hla. cbn [law]. rewrite (count_remove_nat c _ x Hcq), (h12 x).
     subst c. destruct (Nat.eqb_spec x (freeSeqno s)) as [->|Ne].
     + destruct (Nat.ltb_spec (freeSeqno s) (freeSeqno s)), (Nat.ltb_spec (freeSeqno s) (S (freeSeqno s))); lia.
@@ -721,7 +773,7 @@ Proof.
     + destruct (Nat.ltb_spec s0 (S (activeSeqno s))); lia.
     + rewrite (h4 x). destruct (Nat.ltb_spec x (activeSeqno s)), (Nat.ltb_spec x (S (activeSeqno s))); lia.
   - sums. lia.
-  - intros x. sums. rewrite G, Ec, Ec', Hh. cbn [f2w f3w].
+  - intros x. sums. rewrite G, Ec, Ec', Hh. cbn [f2w f3w bw].
     destruct (Nat.eqb_spec x s0) as [->|Ne]; cbn [live].
     + rewrite Nat.eqb_refl. cbn [b2z]. rewrite (h7 s0).
       destruct (Nat.ltb_spec s0 (activeSeqno s)), (Nat.ltb_spec s0 (S (activeSeqno s))); lia.
@@ -736,7 +788,8 @@ Proof.
   - sums. rewrite Ec, Ec'. cbn [mw]. lia.
   - intros x. sums. rewrite G, Ec, Ec'. cbn [zw]. replace (_ - 0 + 0) with (sumZ (fun u : thr => zw x (cur u)) l) by lia.
     destruct (Nat.eqb_spec x s0) as [->|Ne]; cbn [live closed] in *; apply h10.
-  - intros x. sums. rewrite G, Ec, Ec'. cbn [zw]. replace (_ - 0 + 0) with (sumZ (fun u : thr => zw x (cur u)) l) by lia.
+  - intros x. sums. rewrite G, Ec, Ec'. cbn [zw bw]. replace (_ - 0 + 0) with (sumZ (fun u : thr => zw x (cur u)) l) by lia.
+    replace (_ - 0 + 0) with (sumZ (fun u : thr => bw x (cur u)) l) by lia.
     destruct (Nat.eqb_spec x s0) as [->|Ne]; cbn [live closed] in *; apply h11.
   - intros x. sums. rewrite G, Ec, Ec'. cbn [law]. pose proof (h12 x) as E.
     destruct (Nat.eqb_spec x s0) as [->|Ne]; cbn [closed]; lia.
@@ -772,7 +825,7 @@ Lemma sh_eta_set s s0 :
 Proof. rewrite sess_eta. unfold get. rewrite set_nth_same. now destruct s. Qed.
 
 Ltac wts Ec :=
-  psimp; rewrite ?Ec; cbn [f2w f3w zw law gcw qw mw kw curw locok b2z mz];
+  psimp; rewrite ?Ec; cbn [f2w f3w bw zw law gcw qw mw kw curw locok b2z mz];
   rewrite ?Nat.eqb_refl; cbn [b2z]; try reflexivity; try lia.
 
 Section Step2.
@@ -794,7 +847,8 @@ Qed.
 Lemma qsum_nonneg : 0 <= sumZ (fun u : thr => qw (cur u)) l.
 Proof. apply sum_nonneg. intros; apply qw_nonneg. Qed.
 
-Lemma at_f2 s0 : cur t = Some (LFlush2 s0) -> live (get s s0) = sumZ (hw s0) l /\ (s0 < activeSeqno s)%nat.
+Lemma at_f2 s0 : cur t = Some (LFlush2 s0) ->
+  live (get s s0) = sumZ (hw s0) l + sumZ (fun u : thr => bw s0 (cur u)) l /\ (s0 < activeSeqno s)%nat.
 Proof.
   intros Ec. pose proof (i_loc _ _ HI t Hin) as L. psimp. rewrite Ec in L. cbn [locok] in L. psimp.
   split; [|exact L]. pose proof (i_live _ _ HI s0) as E. psimp.
@@ -805,7 +859,7 @@ Proof.
 Qed.
 
 Lemma at_f3 s0 : cur t = Some (LFlush3 s0) ->
-  live (get s s0) = sumZ (hw s0) l + offset + 1 /\ (s0 < activeSeqno s)%nat.
+  live (get s s0) = sumZ (hw s0) l + sumZ (fun u : thr => bw s0 (cur u)) l + offset + 1 /\ (s0 < activeSeqno s)%nat.
 Proof.
   intros Ec. pose proof (i_loc _ _ HI t Hin) as L. psimp. rewrite Ec in L. cbn [locok] in L. psimp.
   split; [|exact L]. pose proof (i_live _ _ HI s0) as E. psimp.
@@ -816,40 +870,64 @@ Proof.
 Qed.
 
 (** a thread inside an operation leaves room for one more token *)
-Lemma acq_room s0 : curw (cur t) = 1 -> live (get s s0) + 1 <= offset ->
+Lemma acq_room s0 : curw (cur t) = 1 -> bw s0 (cur t) = 0 -> live (get s s0) + 1 <= offset ->
   live (get s s0) + 1 <> offset /\ live (get s s0) <> offset.
 Proof.
-  intros Ec Hle. split; [|lia]. intros E.
+  intros Ec Eb Hle. split; [|lia]. intros E.
   pose proof (i_live _ _ HI s0) as L. pose proof (hold_bound N _ HI s0) as B. psimp.
-  pose proof (sum_ge (fun u : thr => curw (cur u)) l t (fun u => curw_nonneg (cur u)) Hin) as G. cbn beta in G.
+  pose proof (sum_le_at (fun u : thr => bw s0 (cur u)) (fun u : thr => curw (cur u)) l t
+                (fun u => bw_le_curw s0 (cur u)) Hin) as G. cbn beta in G.
   pose proof (F23_le1 N _ HI s0) as F. pose proof (F2_nonneg (mkSys s l) s0) as F2.
-  pose proof (F3_nonneg (mkSys s l) s0) as F3. pose proof (HW_nonneg (mkSys s l) s0) as Hn. psimp.
+  pose proof (F3_nonneg (mkSys s l) s0) as F3. pose proof (HW_nonneg (mkSys s l) s0) as Hn.
+  pose proof (B_nonneg (mkSys s l) s0) as Bn. psimp.
   destruct (Nat.ltb_spec s0 (activeSeqno s)) as [A|A].
   - unfold offset in *. lia.
   - destruct (F23_zero N _ HI s0 A) as [Z2 Z3]. psimp. rewrite Z2, Z3 in L. unfold offset in *. lia.
 Qed.
 
+(** an accessor that is backing off: its increment is still in the counter *)
+Lemma at_back s0 : cur t = Some (LAcqBack s0) ->
+  (s0 <= activeSeqno s)%nat /\ 1 <= sumZ (fun u : thr => bw s0 (cur u)) l /\
+  0 <= live (get s s0) - 1 /\ live (get s s0) - 1 <> offset - 1 /\
+  (live (get s s0) - 1 = offset -> sumZ (fun u : thr => bw s0 (cur u)) l = 1).
+Proof.
+  intros Ec. pose proof (i_loc _ _ HI t Hin) as L. psimp. rewrite Ec in L. cbn [locok] in L. psimp.
+  split; [exact L|].
+  pose proof (sum_ge (fun u : thr => bw s0 (cur u)) l t (fun u => bw_nonneg s0 (cur u)) Hin) as G.
+  cbn beta in G. rewrite Ec in G. cbn [bw] in G. rewrite Nat.eqb_refl in G. cbn [b2z] in G.
+  split; [exact G|].
+  pose proof (i_live _ _ HI s0) as E. pose proof (hold_lt N HN _ HI s0) as B. psimp.
+  pose proof (F23_le1 N _ HI s0) as F. pose proof (F2_nonneg (mkSys s l) s0) as F2.
+  pose proof (F3_nonneg (mkSys s l) s0) as F3. pose proof (HW_nonneg (mkSys s l) s0) as Hn. psimp.
+  assert (A : 0 <= live (get s s0) - 1 /\ live (get s s0) - 1 <> offset - 1).
+  { destruct (Nat.ltb_spec s0 (activeSeqno s)) as [A|A].
+    - unfold offset in *. lia.
+    - destruct (F23_zero N _ HI s0 A) as [Z2 Z3]. psimp. rewrite Z2, Z3 in E. unfold offset in *. lia. }
+  destruct A as [A1 A2]. split; [exact A1|]. split; [exact A2|].
+  intros E1. pose proof (live_off1 N HN _ HI s0) as O. psimp. lia.
+Qed.
+
 (** a finished Release chain: nothing but the mutex can change *)
 Lemma finish_ctl k s' p' r :
   mw (cur t) = kw k -> gcw (cur t) = 0 ->
-  (forall x, f2w x (cur t) = 0) -> (forall x, f3w x (cur t) = 0) ->
+  (forall x, f2w x (cur t) = 0) -> (forall x, f3w x (cur t) = 0) -> (forall x, bw x (cur t) = 0) ->
   (forall x, zw x (cur t) = 0) -> (forall x, law x (cur t) = 0) -> curw (cur t) = 1 ->
   (ready s = true -> running s = true \/ 1 <= sumZ (fun u : thr => qw (cur u)) l - qw (cur t)) ->
   finish k (pers_of t) s None = (s', p', r) ->
   Inv N (mkSys s' (upd_th i (finish_seg _ _ _ _ t (todo t) p' r) l)).
 Proof.
-  intros Hm Hg H2 H3 Hz Hla Hc Hr E. pose proof (i_cs _ _ HI) as Hcs. psimp.
+  intros Hm Hg H2 H3 Hb Hz Hla Hc Hr E. pose proof (i_cs _ _ HI) as Hcs. psimp.
   destruct k; cbn [finish] in E; inversion E; subst s' p' r; clear E; psimp; cbn [kw] in Hm.
   - replace s with (mkSh (sessions s) (cur_sess s) (activeSeqno s) (freeSeqno s) (freeq s) (running s) (mutex s)
                          (destructed s) (panicked s)) at 1 by (now destruct s).
-    apply (Inv_ctl N s l i t _ HI Et); auto; unfold ww in *; psimp; cbn [f2w f3w zw law gcw qw mw curw locok]; try lia; auto.
+    apply (Inv_ctl N s l i t _ HI Et); auto; unfold ww in *; psimp; cbn [f2w f3w bw zw law gcw qw mw curw locok]; try lia; auto.
     intros R _. destruct (Hr R); [now left|right; lia].
   - replace s with (mkSh (sessions s) (cur_sess s) (activeSeqno s) (freeSeqno s) (freeq s) (running s) (mutex s)
                          (destructed s) (panicked s)) at 1 by (now destruct s).
-    apply (Inv_ctl N s l i t _ HI Et); auto; unfold ww in *; psimp; cbn [f2w f3w zw law gcw qw mw curw locok]; try lia; auto.
+    apply (Inv_ctl N s l i t _ HI Et); auto; unfold ww in *; psimp; cbn [f2w f3w bw zw law gcw qw mw curw locok]; try lia; auto.
     intros R _. destruct (Hr R); [now left|right; lia].
   - pose proof (at_mx Hm).
-    apply (Inv_ctl N s l i t _ HI Et); auto; unfold ww in *; psimp; cbn [f2w f3w zw law gcw qw mw curw locok mz]; try lia; auto.
+    apply (Inv_ctl N s l i t _ HI Et); auto; unfold ww in *; psimp; cbn [f2w f3w bw zw law gcw qw mw curw locok mz]; try lia; auto.
     intros R _. destruct (Hr R); [now left|right; lia].
 Qed.
 
@@ -858,19 +936,22 @@ Lemma rel_dec_pres s0 k p rest v0 s' p' r :
   (s0 <= activeSeqno s)%nat ->
   (forall x, x <> s0 -> Z.of_nat (count_occ Nat.eq_dec p x) = hw x t) ->
   (forall x, x <> s0 -> f2w x (cur t) = 0) -> (forall x, x <> s0 -> f3w x (cur t) = 0) ->
+  (forall x, x <> s0 -> bw x (cur t) = 0) ->
   v0 - 1 = live (get s s0) + (Z.of_nat (count_occ Nat.eq_dec p s0) - hw s0 t)
-           + offset * f2w s0 (cur t) - f3w s0 (cur t) ->
+           + offset * f2w s0 (cur t) - f3w s0 (cur t) - bw s0 (cur t) ->
   (forall x, zw x (cur t) = 0) -> (forall x, law x (cur t) = 0) -> gcw (cur t) = 0 -> qw (cur t) = 0 ->
   mw (cur t) = kw k ->
   Z.of_nat (length p) + Z.of_nat (length rest) + 1 <= ww t ->
   0 <= v0 - 1 -> v0 - 1 <> offset - 1 ->
-  (v0 - 1 <> offset -> live (get s s0) <> offset) ->
+  (v0 - 1 = offset -> sumZ (fun u : thr => bw s0 (cur u)) l - bw s0 (cur t) = 0) ->
+  (v0 - 1 <> offset -> live (get s s0) = offset + sumZ (fun u : thr => bw s0 (cur u)) l ->
+     v0 - 1 - live (get s s0) = - bw s0 (cur t)) ->
   rel_dec s0 k p (mkSh (set_nth s0 (mkSess v0 (closed (get s s0)) (seqno (get s s0)) (oref (get s s0))) (sessions s))
                        (cur_sess s) (activeSeqno s) (freeSeqno s) (freeq s) (running s) (mutex s)
                        (destructed s) (panicked s)) = (s', p', r) ->
   Inv N (mkSys s' (upd_th i (finish_seg _ _ _ _ t rest p' r) l)).
 Proof.
-  intros Hs0 Hh H2 H3 Hv Hz Hla Hg Hq Hm Hw Hp0 Hp1 Hc2 E.
+  intros Hs0 Hh H2 H3 Hb Hv Hz Hla Hg Hq Hm Hw Hp0 Hp1 Hc1 Hc2 E.
   pose proof (i_len _ _ HI) as Hlen. pose proof (i_cs _ _ HI) as Hcs. psimp.
   assert (Hr : (s0 < length (sessions s))%nat) by lia.
   unfold rel_dec in E. rewrite (get_mk_set s0 _ _ _ _ _ _ _ _ _ _ Hr) in E.
@@ -878,45 +959,49 @@ Proof.
   destruct (Z.eqb_spec (v0 - 1) offset) as [Ev|Ev].
   - inversion E; subst s' p' r; clear E. psimp.
     apply (Inv_live N s l i t _ HI Et s0 (v0 - 1) (mutex s)); auto; unfold hw, ww in *; psimp;
-      cbn [f2w f3w zw law gcw qw mw curw locok]; rewrite ?Nat.eqb_refl; cbn [b2z]; auto; try lia.
+      cbn [f2w f3w bw zw law gcw qw mw curw locok]; rewrite ?Nat.eqb_refl; cbn [b2z]; auto; try lia.
     + intros x Ne. rewrite H2 by assumption. reflexivity.
     + intros x Ne. rewrite H3 by assumption. reflexivity.
+    + intros x Ne. rewrite Hb by assumption. reflexivity.
     + intros x Ne. rewrite Hz. destruct (Nat.eqb_spec s0 x); [congruence|reflexivity].
   - destruct (Z.ltb_spec (v0 - 1) 0) as [|_]; [lia|].
     destruct (Z.eqb_spec (v0 - 1) (offset - 1)) as [|_]; [lia|]. cbn [orb] in E.
     specialize (Hc2 Ev).
     destruct k; cbn [finish] in E; psimp; inversion E; subst s' p' r; clear E; psimp; cbn [kw] in Hm.
     + apply (Inv_live N s l i t _ HI Et s0 (v0 - 1) (mutex s)); auto; unfold hw, ww in *; psimp;
-        cbn [f2w f3w zw law gcw qw mw curw locok]; auto; try lia.
+        cbn [f2w f3w bw zw law gcw qw mw curw locok]; auto; try lia.
       * intros x Ne. now rewrite H2.
       * intros x Ne. now rewrite H3.
+      * intros x Ne. now rewrite Hb.
     + apply (Inv_live N s l i t _ HI Et s0 (v0 - 1) (mutex s)); auto; unfold hw, ww in *; psimp;
-        cbn [f2w f3w zw law gcw qw mw curw locok]; auto; try lia.
+        cbn [f2w f3w bw zw law gcw qw mw curw locok]; auto; try lia.
       * intros x Ne. now rewrite H2.
       * intros x Ne. now rewrite H3.
+      * intros x Ne. now rewrite Hb.
     + pose proof (at_mx Hm).
       apply (Inv_live N s l i t _ HI Et s0 (v0 - 1) None); auto; unfold hw, ww in *; psimp;
-        cbn [f2w f3w zw law gcw qw mw curw locok mz]; auto; try lia.
+        cbn [f2w f3w bw zw law gcw qw mw curw locok mz]; auto; try lia.
       * intros x Ne. now rewrite H2.
       * intros x Ne. now rewrite H3.
+      * intros x Ne. now rewrite Hb.
 Qed.
 
 (** try-lock and SeekFirst of doCleanup *)
 Lemma try_clean_pres k s' p' r :
   mw (cur t) = kw k -> gcw (cur t) = 0 -> qw (cur t) = 1 ->
-  (forall x, f2w x (cur t) = 0) -> (forall x, f3w x (cur t) = 0) ->
+  (forall x, f2w x (cur t) = 0) -> (forall x, f3w x (cur t) = 0) -> (forall x, bw x (cur t) = 0) ->
   (forall x, zw x (cur t) = 0) -> (forall x, law x (cur t) = 0) -> curw (cur t) = 1 ->
   try_clean k (pers_of t) s = (s', p', r) ->
   Inv N (mkSys s' (upd_th i (finish_seg _ _ _ _ t (todo t) p' r) l)).
 Proof.
-  intros Hm Hg Hq H2 H3 Hz Hla Hc E. unfold try_clean in E.
+  intros Hm Hg Hq H2 H3 Hb Hz Hla Hc E. unfold try_clean in E.
   destruct (running s) eqn:Er.
   - apply (finish_ctl k s' p' r); auto.
   - psimp. destruct (freeq s) as [|c q] eqn:Eq; inversion E; subst s' p' r; clear E; psimp; rewrite <- Eq.
     + apply (Inv_ctl N s l i t _ HI Et true (mutex s)); auto; unfold ww in *; psimp;
-        cbn [f2w f3w zw law gcw qw mw curw locok b2z]; auto; try lia. rewrite Er. cbn [b2z]. lia.
+        cbn [f2w f3w bw zw law gcw qw mw curw locok b2z]; auto; try lia. rewrite Er. cbn [b2z]. lia.
     + apply (Inv_ctl N s l i t _ HI Et true (mutex s)); auto; unfold ww in *; psimp;
-        cbn [f2w f3w zw law gcw qw mw curw locok b2z]; auto; try lia.
+        cbn [f2w f3w bw zw law gcw qw mw curw locok b2z]; auto; try lia.
       * rewrite Er. cbn [b2z]. lia.
       * rewrite Eq. now left.
 Qed.
@@ -929,7 +1014,7 @@ Proof. unfold offset. lia. Qed.
 
 Ltac side Ec Etd :=
   unfold ww, hw; psimp; rewrite ?Ec, ?Etd;
-  cbn [f2w f3w zw law gcw qw mw kw curw locok b2z mz length count_occ]; rewrite ?Nat.eqb_refl; cbn [b2z];
+  cbn [f2w f3w bw zw law gcw qw mw kw curw locok b2z mz length count_occ]; rewrite ?Nat.eqb_refl; cbn [b2z];
   auto; try lia; try (intros _ [?|?]; [now left|right; lia]).
 
 Ltac get_tuple E :=
@@ -946,17 +1031,25 @@ Proof.
   assert (Hin : In t l) by (eapply nth_error_In; eauto).
   pose proof (i_loc _ _ H t Hin) as L. psimp. pose proof offset_pos as Op.
   destruct (cur t) as [lc|] eqn:Ec.
-  - unfold blocked. destruct lc as [s0|s0 k|s0 k|s0 k|c k|k|k|s0 r0|s0|s0]; cbn [step]; cbn [locok] in L; psimp.
+  - unfold blocked. destruct lc as [s0|s0|s0 k|s0 k|s0 k|c k|k|k|s0 r0|s0|s0]; cbn [step]; cbn [locok] in L; psimp.
     + (* Acquire: increment *)
+      pose proof (B_nonneg (mkSys s l) s0) as Bn. psimp.
       destruct (Z.ltb_spec offset (live (get s s0) + 1)) as [Hlt|Hle].
-      * get_tuple E. unfold upd_sess, set_sessions in E.
-        apply (rel_dec_pres N s l i t H Et s0 KRetry (pers_of t) (todo t) (live (get s s0) + 1) s' p' r);
-          auto; side Ec Ec.
-      * destruct (acq_room N HN s l i t H Et s0) as [A B]; [rewrite Ec; reflexivity|lia|].
+      * (* the session is closed: the increment stays in the counter until the back-off *)
+        unfold upd_sess, set_sessions.
+        apply (Inv_live N s l i t _ H Et s0 (live (get s s0) + 1) (mutex s)); auto; side Ec Ec.
+        intros x Ne. destruct (Nat.eqb_spec s0 x); [congruence|reflexivity].
+      * destruct (acq_room N HN s l i t H Et s0) as [A B]; [rewrite Ec; reflexivity|rewrite Ec; reflexivity|lia|].
         unfold upd_sess, set_sessions.
         apply (Inv_live N s l i t _ H Et s0 (live (get s s0) + 1) (mutex s)); auto; side Ec Ec.
         -- intros x Ne. destruct (Nat.eq_dec s0 x); [congruence|reflexivity].
         -- destruct (Nat.eq_dec s0 s0); [lia|congruence].
+    + (* Acquire: back off through Release *)
+      destruct (at_back N HN s l i t H Et s0 Ec) as (A0 & A1 & A2 & A3 & A4).
+      get_tuple E. rewrite (sh_eta_set s s0) in E.
+      apply (rel_dec_pres N s l i t H Et s0 KRetry (pers_of t) (todo t) (live (get s s0)) s' p' r);
+        auto; side Ec Ec.
+      intros x Ne. destruct (Nat.eqb_spec s0 x); [congruence|reflexivity].
     + (* closed latch *)
       pose proof (i_cs _ _ H) as Hcs. psimp.
       unfold upd_sess, set_sessions.
@@ -1006,14 +1099,15 @@ Proof.
       apply (Inv_flush1 N HN s l i t _ H Et s0 r0); auto; side Ec Ec.
     + (* Flush: add offset+1 *)
       destruct (at_f2 N s l i t H Et s0 Ec) as [Lv _].
-      pose proof (hold_lt N HN _ H s0) as Hlt. pose proof (HW_nonneg (mkSys s l) s0) as Hn. psimp.
+      pose proof (hold_lt N HN _ H s0) as Hlt. pose proof (HW_nonneg (mkSys s l) s0) as Hn.
+      pose proof (B_nonneg (mkSys s l) s0) as Bn. psimp.
       unfold upd_sess, set_sessions.
       apply (Inv_live N s l i t _ H Et s0 (live (get s s0) + offset + 1) (mutex s)); auto; side Ec Ec.
       * intros x Ne. destruct (Nat.eqb_spec s0 x); [congruence|reflexivity].
       * intros x Ne. destruct (Nat.eqb_spec s0 x); [congruence|reflexivity].
     + (* Flush: Release *)
       destruct (at_f3 N s l i t H Et s0 Ec) as [Lv _].
-      pose proof (HW_nonneg (mkSys s l) s0) as Hn. psimp.
+      pose proof (HW_nonneg (mkSys s l) s0) as Hn. pose proof (B_nonneg (mkSys s l) s0) as Bn. psimp.
       get_tuple E. rewrite (sh_eta_set s s0) in E.
       apply (rel_dec_pres N s l i t H Et s0 KUnlock (pers_of t) (todo t) (live (get s s0)) s' p' r);
         auto; side Ec Ec.
@@ -1029,7 +1123,9 @@ Proof.
       destruct (nth_error (pers_of t) k0) as [s0|] eqn:En.
       * assert (Hh : 1 <= sumZ (hw s0) l).
         { apply (held_pos (mkSys s l) t s0 Hin). eapply nth_error_In; eauto. }
-        destruct (held_live N HN _ H s0 Hh) as (A & B & C). psimp.
+        destruct (held_live N HN _ H s0 Hh) as (A & A' & B & C).
+        pose proof (live_off1 N HN _ H s0) as O1. pose proof (F3_nonneg (mkSys s l) s0) as F3n.
+        pose proof (B_nonneg (mkSys s l) s0) as Bn. psimp.
         pose proof (count_remove_nth (pers_of t) k0 s0) as Cn.
         pose proof (length_remove_nth (pers_of t) k0 s0 En) as Ln.
         get_tuple E. rewrite (sh_eta_set s s0) in E.
@@ -1073,11 +1169,11 @@ Proof.
   - intros x. rewrite init_get. cbn [seqno init_sh activeSeqno]. destruct x; reflexivity.
   - pose proof (init_ww progs) as W. unfold init. cbn [ths]. unfold pers in *. lia.
   - intros x. rewrite init_get. cbn [live init_sh activeSeqno].
-    rewrite !Z0; [destruct x; cbn; lia| | |]; intros u Ec Ep; unfold hw; rewrite ?Ec, ?Ep; reflexivity.
+    rewrite !Z0; [destruct x; cbn; lia| | | |]; intros u Ec Ep; unfold hw; rewrite ?Ec, ?Ep; reflexivity.
   - intros t Ht. destruct (init_cur _ _ Ht) as [-> _]. exact I.
   - rewrite Z0; [reflexivity|]. intros u -> _. reflexivity.
   - intros x. rewrite init_get. cbn [live]. pose proof offset_pos. lia.
-  - intros x. rewrite init_get. cbn [closed]. rewrite Z0; [lia|]. intros u -> _. reflexivity.
+  - intros x. rewrite init_get. cbn [closed]. rewrite (Z0 (fun t : thr => zw x (cur t))); [lia|]. intros u -> _. reflexivity.
   - intros x. rewrite init_get. cbn [closed Nat.eqb init_sh freeq freeSeqno count_occ].
     rewrite Z0; [destruct x; cbn; lia|]. intros u -> _. reflexivity.
   - rewrite Z0; [reflexivity|]. intros u -> _. reflexivity.
@@ -1157,7 +1253,7 @@ Proof.
   { destruct (Nat.eq_dec (freeSeqno (sh y)) (activeSeqno (sh y))) as [|Ne]; [assumption|exfalso].
     set (f := freeSeqno (sh y)) in *.
     assert (Lf : live (get (sh y) f) = offset).
-    { rewrite (i_live _ _ H f). rewrite (Z0 (f2w f)), (Z0 (f3w f)) by reflexivity.
+    { rewrite (i_live _ _ H f). rewrite (Z0 (f2w f)), (Z0 (f3w f)), (Z0 (bw f)) by reflexivity.
       rewrite sum_zero; [|intros u Hu; unfold hw; now rewrite (Hp u Hu)].
       destruct (Nat.ltb_spec f (activeSeqno (sh y))); lia. }
     pose proof (i_cl1 _ _ H f Lf) as C. rewrite (Z0 (zw f)) in C by reflexivity.
